@@ -22,3 +22,844 @@ theorem loop_ok (tbl : EnvTable) (isB isE : TagName → Bool) :
       · simp only [hE]; exact ih _ _
 
 end LiquidVerif.TagAudit
+
+namespace LiquidVerif.TagAudit
+
+/-! ## Consistency of an environment table with the hand-written grammar -/
+
+/-- inner tags the parser accepts somewhere inside a frame of this family -/
+def Frame.familyInners : Frame → List TagName
+  | .condThen .. | .condElse .. | .condJunk .. => [nm "elsif", nm "else"]
+  | .caseStart | .caseBranch => [nm "when", nm "else"]
+  | .forBody | .forElse => [nm "else"]
+  | .transMsg | .transPlural => [nm "plural"]
+  | .simple .. | .skip .. => []
+
+/-- the audit's tables agree with what the parser does for this frame: the closing tag the parser
+hard-codes is `"end" + name`, is a registered end tag of a registered block, and every inner tag the
+parser accepts inside it is allowed there by the inner-tag map -/
+def Frame.isJunk : Frame → Bool
+  | .condJunk .. => true
+  | _ => false
+
+def goodFrame (tbl : EnvTable) (f : Frame) : Bool :=
+  !f.isJunk && f.name.ends == 0 && f.endT == f.name.endOf
+  && (registeredBlocks tbl).contains f.name && (registeredEnds tbl).contains f.endT
+  && f.familyInners.all (fun t => (enclosing tbl t).contains f.name)
+
+def infoOK (tbl : EnvTable) (i : TagInfo) : Bool :=
+  match dispatch i with
+  | .openF f => i.block && i.name == i.key && f.name == i.key && f.endT == i.endTag && goodFrame tbl f
+      && i.key != nm "break" && i.key != nm "continue"
+  | .inline => !i.block && i.name == i.key && i.key.ends == 0
+      && (!(i.key == nm "break" || i.key == nm "continue") || (enclosing tbl i.key).contains (nm "for"))
+  | .bad => !i.block
+
+/-- decidable side condition tying a generated table to the grammar model (kernel-evaluated for
+`defaultEnv` and `extraEnv` on every run) -/
+def consistent (tbl : EnvTable) : Bool :=
+  tbl.tags.all (infoOK tbl)
+  && tbl.tags.all (fun i => tbl.tags.all (fun j => !(i.name == j.name) || i.block == j.block))
+  && [nm "else", nm "elsif", nm "when", nm "plural"].all (fun t => !(registeredBlocks tbl).contains t)
+
+/-- what one accepted step of the restricted parser means for the audit -/
+inductive StepKind (tbl : EnvTable) (pst : List Frame) (t : TagName) (pst' : List Frame) : Prop
+  | close (f : Frame) (rest : List Frame) :
+      pst = f :: rest → pst' = rest → t = f.endT → StepKind tbl pst t pst'
+  | inner (f f' : Frame) (rest : List Frame) :
+      pst = f :: rest → pst' = f' :: rest → f'.name = f.name → goodFrame tbl f' = true →
+      t.ends = 0 → (registeredBlocks tbl).contains t = false →
+      (enclosing tbl t).contains f.name = true → StepKind tbl pst t pst'
+  | open_ (f' : Frame) :
+      pst' = f' :: pst → f'.name = t → goodFrame tbl f' = true →
+      (registered tbl).contains t = true → (registeredBlocks tbl).contains t = true →
+      StepKind tbl pst t pst'
+  | inline :
+      pst' = pst → t.ends = 0 → (registeredBlocks tbl).contains t = false →
+      ((registered tbl).contains t = true ∨
+        ((enclosing tbl t).contains (nm "for") = true ∧ ∃ f ∈ pst, f.name = nm "for")) →
+      StepKind tbl pst t pst'
+
+theorem consistent_info {tbl : EnvTable} (hc : consistent tbl = true) {i : TagInfo} (hi : i ∈ tbl.tags) :
+    infoOK tbl i = true := by
+  simp only [consistent, Bool.and_eq_true, List.all_eq_true] at hc
+  exact hc.1.1 i hi
+
+theorem consistent_names {tbl : EnvTable} (hc : consistent tbl = true) {i j : TagInfo}
+    (hi : i ∈ tbl.tags) (hj : j ∈ tbl.tags) (h : i.name = j.name) : i.block = j.block := by
+  simp only [consistent, Bool.and_eq_true, List.all_eq_true] at hc
+  have := hc.1.2 i hi j hj
+  simpa [h] using this
+
+theorem findTag_some {tbl : EnvTable} {t : TagName} {i : TagInfo} (h : findTag tbl t = some i) :
+    i ∈ tbl.tags ∧ i.key = t := by
+  unfold findTag at h
+  refine ⟨List.mem_of_find?_eq_some h, ?_⟩
+  have := List.find?_some h
+  simpa using this
+
+theorem mem_registered {tbl : EnvTable} {i : TagInfo} (hi : i ∈ tbl.tags)
+    (hb : i.key ≠ nm "break") (hcn : i.key ≠ nm "continue") : (registered tbl).contains i.key = true := by
+  rw [List.contains_iff_mem]
+  unfold registered
+  rw [List.mem_filter]
+  refine ⟨List.mem_map_of_mem hi, ?_⟩
+  simp [hb, hcn]
+
+theorem mem_registeredBlocks {tbl : EnvTable} {i : TagInfo} (hi : i ∈ tbl.tags) (hb : i.block = true) :
+    (registeredBlocks tbl).contains i.name = true := by
+  rw [List.contains_iff_mem]
+  unfold registeredBlocks
+  exact List.mem_map_of_mem (List.mem_filter.mpr ⟨hi, hb⟩)
+
+theorem not_mem_registeredBlocks {tbl : EnvTable} (hc : consistent tbl = true) {i : TagInfo}
+    (hi : i ∈ tbl.tags) (hb : i.block = false) : (registeredBlocks tbl).contains i.name = false := by
+  rw [Bool.eq_false_iff]
+  intro h
+  rw [List.contains_iff_mem] at h
+  unfold registeredBlocks at h
+  obtain ⟨j, hj, hn⟩ := List.mem_map.mp h
+  obtain ⟨hj, hjb⟩ := List.mem_filter.mp hj
+  have := consistent_names hc hj hi hn
+  simp_all
+
+theorem isFor_name {f : Frame} (h : f.isFor = true) : f.name = nm "for" := by
+  cases f <;> simp_all [Frame.isFor, Frame.name]
+
+theorem dispatchTok_kind {tbl : EnvTable} (hc : consistent tbl = true) {pst pst' : List Frame} {t : TagName}
+    (h : dispatchTok tbl Opts.restricted pst t = some pst') : StepKind tbl pst t pst' := by
+  unfold dispatchTok at h
+  split at h
+  · cases h
+  · rename_i info hf
+    obtain ⟨hmem, hkey⟩ := findTag_some hf
+    have hok := consistent_info hc hmem
+    unfold infoOK at hok
+    split at h
+    · cases h
+    · -- inline
+      rename_i hd
+      simp only [hd, Bool.and_eq_true, Bool.not_eq_true', beq_iff_eq, Bool.or_eq_true] at hok
+      obtain ⟨⟨⟨hnb, hname⟩, hends⟩, hbr⟩ := hok
+      split at h
+      · cases h
+      · rename_i hcond
+        cases h
+        refine .inline rfl (hkey ▸ hends) ?_ ?_
+        · have := not_mem_registeredBlocks hc hmem hnb
+          rw [hname, hkey] at this; exact this
+        · by_cases hbc : t = nm "break" ∨ t = nm "continue"
+          · right
+            have hfor : (pst.any (·.isFor)) = true := by
+              have hbc' : (t == nm "break" || t == nm "continue") = true := by
+                rcases hbc with h | h <;> simp [h]
+              simp only [Opts.restricted, hbc', Bool.not_false, Bool.and_true, Bool.true_and,
+                Bool.not_eq_true', Bool.not_eq_false] at hcond
+              simpa using hcond
+            refine ⟨?_, ?_⟩
+            · rcases hbr with hbr | hbr
+              · rw [hkey] at hbr; simp at hbr; exact absurd hbc (by simp [hbr.1, hbr.2])
+              · rw [hkey] at hbr; exact hbr
+            · obtain ⟨f, hf, hff⟩ := List.any_eq_true.mp hfor
+              exact ⟨f, hf, isFor_name hff⟩
+          · left
+            have := mem_registered hmem (by rw [hkey]; exact fun e => hbc (Or.inl e))
+              (by rw [hkey]; exact fun e => hbc (Or.inr e))
+            rw [hkey] at this; exact this
+    · -- openF
+      rename_i f hd
+      simp only [hd, Bool.and_eq_true, beq_iff_eq, bne_iff_ne, ne_eq] at hok
+      obtain ⟨⟨⟨⟨⟨⟨hb, hname⟩, hfn⟩, _hfe⟩, hgood⟩, hnb⟩, hnc⟩ := hok
+      split at h
+      · cases h
+      · cases h
+        refine .open_ f rfl (hfn.trans hkey) hgood ?_ ?_
+        · have := mem_registered hmem hnb hnc
+          rw [hkey] at this; exact this
+        · have := mem_registeredBlocks hmem hb
+          rw [hname, hkey] at this; exact this
+
+end LiquidVerif.TagAudit
+
+namespace LiquidVerif.TagAudit
+
+theorem consistent_inner {tbl : EnvTable} (hc : consistent tbl = true) {t : TagName}
+    (ht : t ∈ [nm "else", nm "elsif", nm "when", nm "plural"]) : (registeredBlocks tbl).contains t = false := by
+  simp only [consistent, Bool.and_eq_true, List.all_eq_true] at hc
+  have := hc.2 t ht
+  simpa using this
+
+theorem good_inner {tbl : EnvTable} {f : Frame} (hg : goodFrame tbl f = true) {t : TagName}
+    (ht : t ∈ f.familyInners) : (enclosing tbl t).contains f.name = true := by
+  simp only [goodFrame, Bool.and_eq_true, List.all_eq_true] at hg
+  exact hg.2 t ht
+
+/-- goodness only looks at the frame's name, end tag and family -/
+theorem good_of_same {tbl : EnvTable} {f f' : Frame} (hg : goodFrame tbl f = true)
+    (hn : f'.name = f.name) (he : f'.endT = f.endT) (hi : f'.familyInners = f.familyInners)
+    (hj : f'.isJunk = false) : goodFrame tbl f' = true := by
+  simp only [goodFrame, hn, he, hi, hj, Bool.and_eq_true] at hg ⊢
+  exact ⟨⟨⟨⟨⟨rfl, hg.1.1.1.1.2⟩, hg.1.1.1.2⟩, hg.1.1.2⟩, hg.1.2⟩, hg.2⟩
+
+theorem pstep_kind {tbl : EnvTable} (hc : consistent tbl = true) {pst pst' : List Frame} {t : TagName}
+    (hg : ∀ f ∈ pst, goodFrame tbl f = true)
+    (h : pstep tbl Opts.restricted pst t = some pst') : StepKind tbl pst t pst' := by
+  unfold pstep at h
+  cases pst with
+  | nil => exact dispatchTok_kind hc h
+  | cons f rest =>
+    have hgf := hg f (List.mem_cons_self ..)
+    have inner_step : ∀ (f' : Frame), f'.name = f.name → f'.endT = f.endT → f'.familyInners = f.familyInners →
+        f'.isJunk = false → t ∈ f.familyInners → t ∈ [nm "else", nm "elsif", nm "when", nm "plural"] →
+        StepKind tbl (f :: rest) t (f' :: rest) := by
+      intro f' hn he hi hj ht ht'
+      refine .inner f f' rest rfl rfl hn (good_of_same hgf hn he hi hj) ?_ (consistent_inner hc ht') (good_inner hgf ht)
+      simp only [List.mem_cons, List.not_mem_nil, or_false] at ht'
+      rcases ht' with h | h | h | h <;> simp [h, nm]
+    cases f with
+    | condThen n e lax =>
+      simp only at h
+      split at h
+      · rename_i hte; cases h; exact .close _ _ rfl rfl (by simpa [Frame.endT] using hte)
+      · split at h
+        · rename_i hte; cases h
+          have : t = nm "elsif" := by simpa using hte
+          subst this
+          exact inner_step _ rfl rfl rfl rfl (by simp [Frame.familyInners]) (by simp)
+        · split at h
+          · rename_i hte; cases h
+            have : t = nm "else" := by simpa using hte
+            subst this
+            exact inner_step _ rfl rfl rfl rfl (by simp [Frame.familyInners]) (by simp)
+          · exact dispatchTok_kind hc h
+    | condElse n e lax =>
+      simp only at h
+      split at h
+      · rename_i hte; cases h; exact .close _ _ rfl rfl (by simpa [Frame.endT] using hte)
+      · split at h
+        · simp [Opts.restricted] at h
+        · exact dispatchTok_kind hc h
+    | condJunk n e =>
+      simp only at h
+      split at h
+      · rename_i hte; cases h; exact .close _ _ rfl rfl (by simpa [Frame.endT] using hte)
+      · -- a junk frame is never good (it does not arise in the restricted grammar)
+        simp [goodFrame, Frame.isJunk] at hgf
+    | caseStart =>
+      simp only at h
+      split at h
+      · rename_i hte; cases h; exact .close _ _ rfl rfl (by simpa [Frame.endT] using hte)
+      · split at h
+        · rename_i hte
+          split at h
+          · cases h
+          · cases h
+            have : t = nm "when" ∨ t = nm "else" := by simpa using hte
+            rcases this with h | h <;> subst h
+            · exact inner_step _ rfl rfl rfl rfl (by simp [Frame.familyInners]) (by simp)
+            · exact inner_step _ rfl rfl rfl rfl (by simp [Frame.familyInners]) (by simp)
+        · cases h
+    | caseBranch =>
+      simp only at h
+      split at h
+      · rename_i hte; cases h; exact .close _ _ rfl rfl (by simpa [Frame.endT] using hte)
+      · split at h
+        · rename_i hte; cases h
+          have : t = nm "when" ∨ t = nm "else" := by simpa using hte
+          rcases this with h | h <;> subst h
+          · exact inner_step _ rfl rfl rfl rfl (by simp [Frame.familyInners]) (by simp)
+          · exact inner_step _ rfl rfl rfl rfl (by simp [Frame.familyInners]) (by simp)
+        · exact dispatchTok_kind hc h
+    | forBody =>
+      simp only at h
+      split at h
+      · rename_i hte; cases h; exact .close _ _ rfl rfl (by simpa [Frame.endT] using hte)
+      · split at h
+        · rename_i hte; cases h
+          have : t = nm "else" := by simpa using hte
+          subst this
+          exact inner_step _ rfl rfl rfl rfl (by simp [Frame.familyInners]) (by simp)
+        · exact dispatchTok_kind hc h
+    | forElse =>
+      simp only at h
+      split at h
+      · rename_i hte; cases h; exact .close _ _ rfl rfl (by simpa [Frame.endT] using hte)
+      · exact dispatchTok_kind hc h
+    | simple n e =>
+      simp only at h
+      split at h
+      · rename_i hte; cases h; exact .close _ _ rfl rfl (by simpa [Frame.endT] using hte)
+      · exact dispatchTok_kind hc h
+    | transMsg =>
+      simp only at h
+      split at h
+      · rename_i hte; cases h; exact .close _ _ rfl rfl (by simpa [Frame.endT] using hte)
+      · split at h
+        · rename_i hte; cases h
+          have : t = nm "plural" := by simpa using hte
+          subst this
+          exact inner_step _ rfl rfl rfl rfl (by simp [Frame.familyInners]) (by simp)
+        · cases h
+    | transPlural =>
+      simp only at h
+      split at h
+      · rename_i hte; cases h; exact .close _ _ rfl rfl (by simpa [Frame.endT] using hte)
+      · cases h
+    | skip n e noNest =>
+      simp only at h
+      split at h
+      · cases h
+      · split at h
+        · rename_i hte; cases h; exact .close _ _ rfl rfl (by simpa [Frame.endT] using hte)
+        · simp [Opts.restricted] at h
+
+end LiquidVerif.TagAudit
+
+namespace LiquidVerif.TagAudit
+
+theorem stepKind_good {tbl : EnvTable} {pst pst' : List Frame} {t : TagName}
+    (hk : StepKind tbl pst t pst') (hg : ∀ f ∈ pst, goodFrame tbl f = true) :
+    ∀ f ∈ pst', goodFrame tbl f = true := by
+  cases hk with
+  | close f rest h1 h2 _ =>
+    subst h1 h2; intro g hgm; exact hg g (List.mem_cons_of_mem _ hgm)
+  | inner f f' rest h1 h2 _ hgood _ _ _ =>
+    subst h1 h2; intro g hgm
+    rcases List.mem_cons.mp hgm with h | h
+    · subst h; exact hgood
+    · exact hg g (List.mem_cons_of_mem _ h)
+  | open_ f' h1 _ hgood _ _ =>
+    subst h1; intro g hgm
+    rcases List.mem_cons.mp hgm with h | h
+    · subst h; exact hgood
+    · exact hg g h
+  | inline h1 _ _ _ => subst h1; exact hg
+
+theorem good_name_ends {tbl : EnvTable} {f : Frame} (hg : goodFrame tbl f = true) : f.name.ends = 0 := by
+  simp only [goodFrame, Bool.and_eq_true, beq_iff_eq] at hg
+  exact hg.1.1.1.1.2
+
+theorem good_endT {tbl : EnvTable} {f : Frame} (hg : goodFrame tbl f = true) : f.endT = f.name.endOf := by
+  simp only [goodFrame, Bool.and_eq_true, beq_iff_eq] at hg
+  exact hg.1.1.1.2
+
+theorem good_regBlock {tbl : EnvTable} {f : Frame} (hg : goodFrame tbl f = true) :
+    (registeredBlocks tbl).contains f.name = true := by
+  simp only [goodFrame, Bool.and_eq_true] at hg
+  exact hg.1.1.2
+
+theorem good_regEnd {tbl : EnvTable} {f : Frame} (hg : goodFrame tbl f = true) :
+    (registeredEnds tbl).contains f.endT = true := by
+  simp only [goodFrame, Bool.and_eq_true] at hg
+  exact hg.1.2
+
+theorem unEnd_endOf (n : TagName) : n.endOf.unEnd = n := by
+  cases n; simp [TagName.endOf, TagName.unEnd]
+
+/-- an end tag the audit can fully explain: `"end" + b` for a registered block `b` whose registered end tag it is -/
+def goodEnd (tbl : EnvTable) (e : TagName) : Prop :=
+  e.ends = 1 ∧ (registeredBlocks tbl).contains e.unEnd = true ∧ (registeredEnds tbl).contains e = true
+
+theorem good_goodEnd {tbl : EnvTable} {f : Frame} (hg : goodFrame tbl f = true) : goodEnd tbl f.endT := by
+  refine ⟨?_, ?_, good_regEnd hg⟩
+  · rw [good_endT hg]; simp [TagName.endOf, good_name_ends hg]
+  · rw [good_endT hg, unEnd_endOf]; exact good_regBlock hg
+
+theorem prun_cons {tbl : EnvTable} {o : Opts} {pst : List Frame} {t : TagName} {ts : List TagName}
+    {res : List Frame} (h : prun tbl o pst (t :: ts) = some res) :
+    ∃ pst', pstep tbl o pst t = some pst' ∧ prun tbl o pst' ts = some res := by
+  unfold prun at h
+  split at h
+  · cases h
+  · rename_i pst' hp; exact ⟨pst', hp, h⟩
+
+/-- every end tag in a token list the restricted parser accepts closes a good frame -/
+theorem run_ends_good {tbl : EnvTable} (hc : consistent tbl = true) :
+    ∀ (ts : List TagName) (pst res : List Frame), (∀ f ∈ pst, goodFrame tbl f = true) →
+      prun tbl Opts.restricted pst ts = some res → ∀ e ∈ ts, e.isEnd = true → goodEnd tbl e := by
+  intro ts
+  induction ts with
+  | nil => intro _ _ _ _ e he; cases he
+  | cons t ts ih =>
+    intro pst res hg h e he hend
+    obtain ⟨pst', hp, hr⟩ := prun_cons h
+    have hk := pstep_kind hc hg hp
+    rcases List.mem_cons.mp he with heq | hmem
+    · subst heq
+      have hne : e.ends ≠ 0 := by simpa [TagName.isEnd] using hend
+      cases hk with
+      | close f rest h1 _ h3 =>
+        subst h1; rw [h3]; exact good_goodEnd (hg f (List.mem_cons_self ..))
+      | inner _ _ _ _ _ _ _ h0 _ _ => exact absurd h0 hne
+      | open_ f' _ hn hgood _ _ => exact absurd (hn ▸ good_name_ends hgood) hne
+      | inline _ h0 _ _ => exact absurd h0 hne
+    · exact ih pst' res (stepKind_good hk hg) hr e hmem hend
+
+theorem check_clean {tbl : EnvTable} {t : TagName} {st : List TagName}
+    (h : (registered tbl).contains t = true ∨
+      ∃ b, (enclosing tbl t).contains b = true ∧ st.contains b = true) : check tbl t st {} = {} := by
+  unfold check
+  rcases h with h | ⟨b, hb, hs⟩
+  · rw [if_pos h]
+  · split
+    · rfl
+    · have hne : (enclosing tbl t).isEmpty = false := by
+        cases hl : enclosing tbl t with
+        | nil => rw [hl] at hb; simp at hb
+        | cons _ _ => rfl
+      have hany : ((enclosing tbl t).any fun b => st.contains b) = true :=
+        List.any_eq_true.mpr ⟨b, List.contains_iff_mem.mp hb, hs⟩
+      simp only [hne, hany, Bool.not_true, Bool.false_eq_true, if_false]
+
+theorem registeredBlocks_ends {tbl : EnvTable} (hc : consistent tbl = true) {x : TagName}
+    (h : (registeredBlocks tbl).contains x = true) : x.ends = 0 := by
+  rw [List.contains_iff_mem] at h
+  unfold registeredBlocks at h
+  obtain ⟨i, hi, hn⟩ := List.mem_map.mp h
+  obtain ⟨hi, hb⟩ := List.mem_filter.mp hi
+  have hok := consistent_info hc hi
+  unfold infoOK at hok
+  split at hok
+  · rename_i f hd
+    simp only [Bool.and_eq_true, beq_iff_eq] at hok
+    obtain ⟨⟨⟨⟨⟨⟨_, hname⟩, hfn⟩, _⟩, hgood⟩, _⟩, _⟩ := hok
+    rw [← hn, hname, ← hfn]; exact good_name_ends hgood
+  · simp [hb] at hok
+  · simp [hb] at hok
+
+/-- **Simulation**: while the restricted parser accepts, the audit's block stack is the list of the
+parser's open frames and nothing is reported. -/
+theorem sim {tbl : EnvTable} (hc : consistent tbl = true) (isB isE : TagName → Bool) :
+    ∀ (ts : List TagName) (pst : List Frame), (∀ f ∈ pst, goodFrame tbl f = true) →
+      (∀ t ∈ ts, isE t = t.isEnd ∧ isB t = (registeredBlocks tbl).contains t) →
+      prun tbl Opts.restricted pst ts = some [] →
+      loop tbl isB isE ts (pst.map Frame.name) {} = .ok ([], {}) := by
+  intro ts
+  induction ts with
+  | nil =>
+    intro pst _ _ h
+    simp only [prun, Option.some.injEq] at h
+    subst h; rfl
+  | cons t ts ih =>
+    intro pst hg hH h
+    obtain ⟨pst', hp, hr⟩ := prun_cons h
+    have hk := pstep_kind hc hg hp
+    have hg' := stepKind_good hk hg
+    obtain ⟨hE, hB⟩ := hH t (List.mem_cons_self ..)
+    have hH' : ∀ t ∈ ts, isE t = t.isEnd ∧ isB t = (registeredBlocks tbl).contains t :=
+      fun x hx => hH x (List.mem_cons_of_mem _ hx)
+    have ih' := ih pst' hg' hH' hr
+    unfold loop
+    cases hk with
+    | close f rest h1 h2 h3 =>
+      subst h1 h2
+      have hgf := hg f (List.mem_cons_self ..)
+      have hge := good_goodEnd hgf
+      have hB' : isB t = false := by
+        rw [hB, Bool.eq_false_iff]; intro hc'
+        have := registeredBlocks_ends hc hc'
+        rw [h3, hge.1] at this; cases this
+      have hE' : isE t = true := by rw [hE, h3]; simp [TagName.isEnd, hge.1]
+      have hun : t.unEnd = f.name := by rw [h3, good_endT hgf, unEnd_endOf]
+      simp only [hB', hE', List.map_cons, List.isEmpty_cons, pyPop, hun, bne_self_eq_false, if_true]
+      simpa using ih'
+    | inner f f' rest h1 h2 hn _ h0 hnb henc =>
+      subst h1 h2
+      have hE' : isE t = false := by rw [hE]; simp [TagName.isEnd, h0]
+      have hB' : isB t = false := by rw [hB]; exact hnb
+      have hck : check tbl t (List.map Frame.name (f :: rest)) {} = {} :=
+        check_clean (Or.inr ⟨f.name, henc, by simp⟩)
+      simp only [hB', hE', hck]
+      simpa [hn] using ih'
+    | open_ f' h1 hn _ hreg hblk =>
+      subst h1
+      have hB' : isB t = true := by rw [hB]; exact hblk
+      have hck : check tbl t (t :: List.map Frame.name pst) {} = {} := check_clean (Or.inl hreg)
+      simp only [hB', hck, if_true]
+      simpa [hn] using ih'
+    | inline h1 h0 hnb hor =>
+      subst h1
+      have hE' : isE t = false := by rw [hE]; simp [TagName.isEnd, h0]
+      have hB' : isB t = false := by rw [hB]; exact hnb
+      have hck : check tbl t (List.map Frame.name pst') {} = {} := by
+        apply check_clean
+        rcases hor with h | ⟨henc, f, hf, hfn⟩
+        · exact Or.inl h
+        · refine Or.inr ⟨nm "for", henc, ?_⟩
+          rw [List.contains_iff_mem, ← hfn]
+          exact List.mem_map_of_mem hf
+      simp only [hB', hE', hck]
+      simpa using ih'
+
+end LiquidVerif.TagAudit
+
+namespace LiquidVerif.TagAudit
+
+/-! ## The final "bad end tags" pass and assembling `audit` -/
+
+theorem mem_dedup {l : List TagName} {x : TagName} (h : x ∈ dedup l) : x ∈ l := by
+  induction l with
+  | nil => simp [dedup] at h
+  | cons t ts ih =>
+    simp only [dedup, List.mem_cons, List.mem_filter] at h
+    rcases h with h | ⟨h, _⟩
+    · exact h ▸ List.mem_cons_self ..
+    · exact List.mem_cons_of_mem _ (ih h)
+
+theorem mem_dedup_of_mem {l : List TagName} {x : TagName} (h : x ∈ l) : x ∈ dedup l := by
+  induction l with
+  | nil => cases h
+  | cons t ts ih =>
+    simp only [dedup, List.mem_cons, List.mem_filter]
+    by_cases hx : x = t
+    · exact Or.inl hx
+    · rcases List.mem_cons.mp h with h | h
+      · exact absurd h hx
+      · exact Or.inr ⟨ih h, by simpa using hx⟩
+
+theorem block_not_inline {tbl : EnvTable} (hc : consistent tbl = true) {x : TagName}
+    (h : (registeredBlocks tbl).contains x = true) : (inlineTags tbl).contains x = false := by
+  rw [Bool.eq_false_iff]; intro hi
+  rw [List.contains_iff_mem] at h hi
+  unfold registeredBlocks at h
+  unfold inlineTags at hi
+  obtain ⟨i, hi1, hin⟩ := List.mem_map.mp h
+  obtain ⟨j, hj1, hjn⟩ := List.mem_map.mp hi
+  obtain ⟨him, hib⟩ := List.mem_filter.mp hi1
+  obtain ⟨hjm, hjb⟩ := List.mem_filter.mp hj1
+  have := consistent_names hc him hjm (hin.trans hjn.symm)
+  simp_all
+
+theorem finalPass_clean {tbl : EnvTable} (hc : consistent tbl = true) :
+    ∀ names : List TagName, (∀ e ∈ names, e.isEnd = true → goodEnd tbl e) → finalPass tbl names [] = [] := by
+  intro names
+  induction names with
+  | nil => intro _; rfl
+  | cons e es ih =>
+    intro h
+    have hstep : finalStep tbl [] e = [] := by
+      unfold finalStep
+      by_cases he : e.isEnd = true
+      · obtain ⟨_, hb, hr⟩ := h e (List.mem_cons_self ..) he
+        simp only [he, hr, block_not_inline hc hb, if_true, Bool.false_and, Bool.not_true, Bool.or_self,
+          Bool.false_eq_true, if_false]
+      · simp [he]
+    simp only [finalPass, List.foldl_cons, hstep]
+    exact ih (fun x hx => h x (List.mem_cons_of_mem _ hx))
+
+/-- on the tokens of the list itself, `in end_tags` is `startswith("end")` -/
+theorem endTags_contains {toks : List TagName} {t : TagName} (ht : t ∈ toks) :
+    (endTagsOf toks).contains t = t.isEnd := by
+  unfold endTagsOf
+  cases he : t.isEnd with
+  | true => rw [List.contains_iff_mem]; exact List.mem_filter.mpr ⟨ht, he⟩
+  | false =>
+    rw [Bool.eq_false_iff]; intro h
+    rw [List.contains_iff_mem] at h
+    have := (List.mem_filter.mp h).2
+    simp [he] at this
+
+/-- when every end tag present closes a registered block, the inferred block tags add nothing -/
+theorem blockTags_contains {tbl : EnvTable} {toks : List TagName}
+    (hG : ∀ e ∈ toks, e.isEnd = true → goodEnd tbl e) (t : TagName) :
+    (blockTagsOf tbl toks).contains t = (registeredBlocks tbl).contains t := by
+  unfold blockTagsOf
+  cases hb : (registeredBlocks tbl).contains t with
+  | true =>
+    rw [List.contains_iff_mem] at hb ⊢
+    exact List.mem_append_right _ hb
+  | false =>
+    rw [Bool.eq_false_iff]; intro h
+    rw [List.contains_iff_mem] at h
+    rcases List.mem_append.mp h with h | h
+    · obtain ⟨e, he, hu⟩ := List.mem_map.mp h
+      unfold endTagsOf at he
+      obtain ⟨hm, hend⟩ := List.mem_filter.mp he
+      have := (hG e hm hend).2.1
+      rw [hu, hb] at this; cases this
+    · rw [← List.contains_iff_mem, hb] at h; cases h
+
+theorem parses_run {tbl : EnvTable} {o : Opts} {toks : List TagName} (h : parses tbl o toks = true) :
+    prun tbl o [] toks = some [] := by
+  unfold parses at h
+  exact beq_iff_eq.mp h
+
+/-- a token list accepted by the restricted grammar is audited clean (consistent table) -/
+theorem restricted_clean {tbl : EnvTable} (hc : consistent tbl = true) {toks : List TagName}
+    (h : parses tbl Opts.restricted toks = true) : audit tbl toks = .ok Report.clean := by
+  have hrun := parses_run h
+  have hG := run_ends_good hc toks [] [] (by intro f hf; cases hf) hrun
+  have hsim := sim hc (fun t => (blockTagsOf tbl toks).contains t) (fun t => (endTagsOf toks).contains t)
+    toks [] (by intro f hf; cases hf)
+    (fun t ht => ⟨endTags_contains ht, blockTags_contains hG t⟩) hrun
+  have hfin := finalPass_clean hc (dedup toks) (fun e he => hG e (mem_dedup he))
+  unfold audit
+  simp only [List.map_nil] at hsim
+  simp only [hsim, hfin, Report.clean, List.reverse_nil, List.append_nil]
+
+end LiquidVerif.TagAudit
+
+namespace LiquidVerif.TagAudit
+
+deriving instance DecidableEq for Except
+
+/-! ## The restricted grammar is a sub-grammar of the real one -/
+
+theorem dispatch_sub (tbl : EnvTable) (t : TagName) : ∀ s s',
+    dispatchTok tbl Opts.restricted s t = some s' → dispatchTok tbl Opts.real s t = some s' := by
+  intro s s' h
+  unfold dispatchTok at h ⊢
+  split at h
+  · cases h
+  · rename_i info hf
+    try simp only [hf]
+    split at h
+    · cases h
+    · split at h
+      · cases h
+      · cases h; simp [Opts.real]
+    · exact h
+
+theorem restricted_step_sub_strict (tbl : EnvTable) (st st' : List Frame) (t : TagName)
+    (h : pstep tbl Opts.restricted st t = some st') : pstep tbl Opts.real st t = some st' := by
+  have hd := dispatch_sub tbl t
+  unfold pstep at h ⊢
+  cases st with
+  | nil => exact hd _ _ h
+  | cons f rest =>
+    cases f <;> simp only at h ⊢ <;> (repeat' split at h) <;>
+      first
+        | (cases h; done)
+        | (simp only [*, if_true, if_false, Bool.false_eq_true]; done)
+        | (simp only [*, if_true, if_false, Bool.false_eq_true]; first | exact h | exact hd _ _ h)
+        | (simp [Opts.restricted] at *; done)
+
+theorem restricted_run_sub_strict (tbl : EnvTable) : ∀ (ts : List TagName) (st res : List Frame),
+    prun tbl Opts.restricted st ts = some res → prun tbl Opts.real st ts = some res := by
+  intro ts
+  induction ts with
+  | nil => intro st res h; exact h
+  | cons t ts ih =>
+    intro st res h
+    obtain ⟨st', hp, hr⟩ := prun_cons h
+    unfold prun
+    rw [restricted_step_sub_strict tbl st st' t hp]
+    exact ih st' res hr
+
+/-! ## Reporting: unknown names and unbalanced blocks -/
+
+theorem check_unclosed (tbl : EnvTable) (t : TagName) (st : List TagName) (r : Report) :
+    (check tbl t st r).unclosed = r.unclosed := by
+  unfold check; split
+  · rfl
+  · simp only; split
+    · rfl
+    · split <;> rfl
+
+theorem check_unknown_mono (tbl : EnvTable) (t : TagName) (st : List TagName) (r : Report) {x : TagName}
+    (h : x ∈ r.unknown) : x ∈ (check tbl t st r).unknown := by
+  unfold check; split
+  · exact h
+  · simp only; split
+    · exact List.mem_append_left _ h
+    · split <;> exact h
+
+theorem check_reports_unknown (tbl : EnvTable) (t : TagName) (st : List TagName) (r : Report)
+    (hr : (registered tbl).contains t = false) (he : enclosing tbl t = []) :
+    t ∈ (check tbl t st r).unknown := by
+  unfold check
+  rw [if_neg (by rw [hr]; exact Bool.false_ne_true)]
+  simp only [he, List.isEmpty_nil, if_true]
+  exact List.mem_append_right _ (List.mem_singleton.mpr rfl)
+
+/-- one iteration of the loop, whatever branch it takes, continues with *some* stack and report in
+which nothing already reported has been dropped -/
+theorem loop_cons (tbl : EnvTable) (isB isE : TagName → Bool) (t : TagName) (ts st : List TagName) (r : Report) :
+    ∃ st1 r1, loop tbl isB isE (t :: ts) st r = loop tbl isB isE ts st1 r1 ∧
+      (∀ x, x ∈ r.unknown → x ∈ r1.unknown) ∧ (∀ x, x ∈ r.unclosed → x ∈ r1.unclosed) ∧
+      (isE t = false → (registered tbl).contains t = false → enclosing tbl t = [] → t ∈ r1.unknown) := by
+  rw [loop]
+  by_cases hB : isB t = true
+  · simp only [hB, if_true]
+    exact ⟨_, _, rfl, fun x hx => check_unknown_mono tbl t _ r hx, fun x hx => by rw [check_unclosed]; exact hx,
+      fun _ hr he => check_reports_unknown tbl t _ r hr he⟩
+  · simp only [hB]
+    by_cases hE : isE t = true
+    · simp only [hE, if_true]
+      cases st with
+      | nil =>
+        simp only [List.isEmpty_nil, if_true]
+        exact ⟨_, _, rfl, fun x hx => hx, fun x hx => hx, fun h => by cases h⟩
+      | cons s st' =>
+        simp only [List.isEmpty_cons, pyPop]
+        refine ⟨_, _, rfl, ?_, ?_, fun h => by cases h⟩
+        · intro x hx; split <;> exact hx
+        · intro x hx; split
+          · exact List.mem_append_left _ hx
+          · exact hx
+    · simp only [hE]
+      exact ⟨_, _, rfl, fun x hx => check_unknown_mono tbl t _ r hx, fun x hx => by rw [check_unclosed]; exact hx,
+        fun _ hr he => check_reports_unknown tbl t _ r hr he⟩
+
+theorem loop_unknown_mono (tbl : EnvTable) (isB isE : TagName → Bool) :
+    ∀ (ts st : List TagName) (r : Report) (st' : List TagName) (r' : Report),
+      loop tbl isB isE ts st r = .ok (st', r') → ∀ x, x ∈ r.unknown → x ∈ r'.unknown := by
+  intro ts
+  induction ts with
+  | nil => intro st r st' r' h x hx; simp only [loop, Except.ok.injEq, Prod.mk.injEq] at h; rw [← h.2]; exact hx
+  | cons t ts ih =>
+    intro st r st' r' h x hx
+    obtain ⟨st1, r1, heq, hm, _, _⟩ := loop_cons tbl isB isE t ts st r
+    rw [heq] at h
+    exact ih st1 r1 st' r' h x (hm x hx)
+
+/-- a name that is neither registered, nor an inner tag, nor an end tag is in `unknown_tags` after the loop -/
+theorem loop_reports_unknown (tbl : EnvTable) (isB isE : TagName → Bool) (u : TagName)
+    (hE : isE u = false) (hr : (registered tbl).contains u = false) (he : enclosing tbl u = []) :
+    ∀ (ts st : List TagName) (r : Report) (st' : List TagName) (r' : Report), u ∈ ts →
+      loop tbl isB isE ts st r = .ok (st', r') → u ∈ r'.unknown := by
+  intro ts
+  induction ts with
+  | nil => intro _ _ _ _ hu; cases hu
+  | cons t ts ih =>
+    intro st r st' r' hu h
+    obtain ⟨st1, r1, heq, _, _, hrep⟩ := loop_cons tbl isB isE t ts st r
+    rw [heq] at h
+    rcases List.mem_cons.mp hu with hut | hut
+    · subst hut
+      exact loop_unknown_mono tbl isB isE ts st1 r1 st' r' h u (hrep hE hr he)
+    · exact ih st1 r1 st' r' hut h
+
+theorem finalStep_mono (tbl : EnvTable) (unk : List TagName) (t : TagName) {x : TagName} (h : x ∈ unk) :
+    x ∈ finalStep tbl unk t := by
+  unfold finalStep
+  split
+  · simp only; split
+    · exact List.mem_append_left _ h
+    · exact h
+  · exact h
+
+theorem finalPass_mono (tbl : EnvTable) : ∀ (names unk : List TagName) {x : TagName}, x ∈ unk →
+    x ∈ finalPass tbl names unk := by
+  intro names
+  induction names with
+  | nil => intro unk x h; exact h
+  | cons t ts ih =>
+    intro unk x h
+    simp only [finalPass, List.foldl_cons]
+    exact ih _ (finalStep_mono tbl unk t h)
+
+/-- an end tag that is not a registered end tag is reported unknown unless its start tag is -/
+theorem finalPass_reports_end (tbl : EnvTable) (e : TagName) (he : e.isEnd = true)
+    (hr : (registeredEnds tbl).contains e = false) :
+    ∀ (names unk : List TagName), e ∈ names →
+      e ∈ finalPass tbl names unk ∨ e.unEnd ∈ finalPass tbl names unk := by
+  intro names
+  induction names with
+  | nil => intro _ h; cases h
+  | cons t ts ih =>
+    intro unk hmem
+    simp only [finalPass, List.foldl_cons]
+    rcases List.mem_cons.mp hmem with h | h
+    · subst h
+      have : e ∈ finalStep tbl unk e ∨ e.unEnd ∈ finalStep tbl unk e := by
+        unfold finalStep
+        simp only [he, if_true, hr, Bool.not_false, Bool.true_and]
+        by_cases hs : unk.contains e.unEnd = true
+        · right
+          have hmem : e.unEnd ∈ unk := List.contains_iff_mem.mp hs
+          split
+          · exact List.mem_append_left _ hmem
+          · exact hmem
+        · left
+          have : unk.contains e.unEnd = false := by simpa using hs
+          simp only [this, Bool.not_false, Bool.and_true, Bool.or_true, if_true]
+          exact List.mem_append_right _ (List.mem_singleton.mpr rfl)
+      rcases this with h | h
+      · exact Or.inl (finalPass_mono tbl ts _ h)
+      · exact Or.inr (finalPass_mono tbl ts _ h)
+    · exact ih _ h
+
+/-- a pushed block is on the stack or already reported unclosed, as long as its own end tag does not occur -/
+theorem loop_unclosed_inv (tbl : EnvTable) (isB isE : TagName → Bool) (b : TagName)
+    (hEnd : ∀ t, isE t = true → t.isEnd = true) :
+    ∀ (ts st : List TagName) (r : Report) (st' : List TagName) (r' : Report),
+      (∀ t ∈ ts, t ≠ b.endOf) → (b ∈ st ∨ b ∈ r.unclosed) →
+      loop tbl isB isE ts st r = .ok (st', r') → (b ∈ st' ∨ b ∈ r'.unclosed) := by
+  intro ts
+  induction ts with
+  | nil =>
+    intro st r st' r' _ hinv h
+    simp only [loop, Except.ok.injEq, Prod.mk.injEq] at h
+    rw [← h.1, ← h.2]; exact hinv
+  | cons t ts ih =>
+    intro st r st' r' hne hinv h
+    have hne' : ∀ x ∈ ts, x ≠ b.endOf := fun x hx => hne x (List.mem_cons_of_mem _ hx)
+    rw [loop] at h
+    by_cases hB : isB t = true
+    · simp only [hB, if_true] at h
+      refine ih _ _ st' r' hne' ?_ h
+      rcases hinv with hi | hi
+      · exact Or.inl (List.mem_cons_of_mem _ hi)
+      · exact Or.inr (by rw [check_unclosed]; exact hi)
+    · simp only [hB] at h
+      by_cases hE : isE t = true
+      · simp only [hE, if_true] at h
+        cases st with
+        | nil =>
+          simp only [List.isEmpty_nil, if_true] at h
+          refine ih _ _ st' r' hne' ?_ h
+          rcases hinv with hi | hi
+          · cases hi
+          · exact Or.inr hi
+        | cons s rest =>
+          simp only [List.isEmpty_cons, pyPop] at h
+          refine ih _ _ st' r' hne' ?_ h
+          rcases hinv with hi | hi
+          · rcases List.mem_cons.mp hi with hbs | hbs
+            · -- the popped block is `b`: the end tag is not `end b`, so it is reported
+              right
+              have hmis : (s != t.unEnd) = true := by
+                rw [bne_iff_ne]; intro hs
+                have htend := hEnd t hE
+                have : t = b.endOf := by
+                  have hne0 : t.ends ≠ 0 := by simpa [TagName.isEnd] using htend
+                  rw [hbs, hs]
+                  cases t with
+                  | mk k stem =>
+                    simp only [TagName.unEnd, TagName.endOf, TagName.mk.injEq, and_true]
+                    simp only at hne0; omega
+                exact hne t (List.mem_cons_self ..) this
+              simp only [hmis, if_true]
+              exact List.mem_append_right _ (by simp [hbs])
+            · exact Or.inl hbs
+          · right; split
+            · exact List.mem_append_left _ hi
+            · exact hi
+      · simp only [hE] at h
+        refine ih _ _ st' r' hne' ?_ h
+        rcases hinv with hi | hi
+        · exact Or.inl hi
+        · exact Or.inr (by rw [check_unclosed]; exact hi)
+
+theorem loop_reports_unclosed (tbl : EnvTable) (isB isE : TagName → Bool) (b : TagName)
+    (hEnd : ∀ t, isE t = true → t.isEnd = true) (hB : isB b = true) :
+    ∀ (ts st : List TagName) (r : Report) (st' : List TagName) (r' : Report),
+      b ∈ ts → (∀ t ∈ ts, t ≠ b.endOf) →
+      loop tbl isB isE ts st r = .ok (st', r') → (b ∈ st' ∨ b ∈ r'.unclosed) := by
+  intro ts
+  induction ts with
+  | nil => intro _ _ _ _ hb; cases hb
+  | cons t ts ih =>
+    intro st r st' r' hb hne h
+    have hne' : ∀ x ∈ ts, x ≠ b.endOf := fun x hx => hne x (List.mem_cons_of_mem _ hx)
+    rcases List.mem_cons.mp hb with hbt | hbt
+    · subst hbt
+      rw [loop] at h
+      simp only [hB, if_true] at h
+      exact loop_unclosed_inv tbl isB isE b hEnd ts _ _ st' r' hne' (Or.inl (List.mem_cons_self ..)) h
+    · obtain ⟨st1, r1, heq, _, _, _⟩ := loop_cons tbl isB isE t ts st r
+      rw [heq] at h
+      exact ih st1 r1 st' r' hbt hne' h
+
+end LiquidVerif.TagAudit
